@@ -36,6 +36,19 @@ def run(ctx):
         c09.source_rules(r, R)
     constructor_rules(r, lib)
     nondet.scan_shared_state(r, lib)
+    # the command line reaches the options only through the conversions of src/args.rs and the three
+    # assignments in run(): R12.4 / R12.5 (shared with C12)
+    from . import c12
+    b = ctx.bin
+    runs = [x for x in b.real_bodies() if any(cname(c.node).endswith("::into_struct") for c in x.calls())]
+    if len(runs) == 1:
+        rb = runs[0]
+        rend = [c for c in rb.calls() if cname(c.node).endswith("Element::to_serde_struct")]
+        if len(rend) == 1:
+            c12.check_options(r, rb, rend[0], "")
+        else:
+            r.ob("R12.4.options", rb.name, False, "expected one to_serde_struct call in the CLI, found %d" % len(rend), key="R12.4|render-call")
+        c12.check_tables(r, b, "")
     r.trust("fmt::Display of String reproduces the string verbatim; String::is_empty / != compare contents")
 
 
